@@ -163,7 +163,7 @@ def gen_cases(rec, rng, tier):
             yield {'cls': 'shipped_tm1', 'ref': shipped_tm(), 'n': 3}
         except Exception:
             rec.counters['shipped_tm_unreadable'] += 1
-    for _ in range(160 if thorough else 45):
+    for _ in range(600 if thorough else 45):
         blank = rng.choice(['_', '□', 'B'])
         RT = random_tm(rng, rng.randint(1, 4), rng.randint(0, 2), rng.randint(0, 2), blank, p_def=rng.choice([0.4, 0.7, 1.0]),
                        halting_moves=rng.random() < 0.2)
